@@ -314,7 +314,7 @@ class Numpy:
                      "ix_", "tile", "repeat", "abs", "array", "column_stack", "count_nonzero", "logical_not", "where",
                      "flip", "sum", "zeros_like", "full_like", "copy", "arange", "log", "exp", "sqrt", "maximum", "minimum",
                      "nonzero", "delete", "argsort", "concatenate", "asarray", "shape", "isscalar", "array_equal", "cumsum",
-                     "diag", "eye", "round", "nanmean", "mean", "prod", "squeeze", "atleast_2d", "transpose", "nan_to_num", "triu"):
+                     "diag", "eye", "round", "nanmean", "mean", "prod", "squeeze", "atleast_2d", "transpose", "nan_to_num", "triu", "block"):
             fn = getattr(self, "np_" + name, None)
             if fn is not None:
                 T[getattr(np, name)] = fn
@@ -810,7 +810,7 @@ class Numpy:
                         elif I.ctx.entails(z3.Not(t)):
                             t = False
                         else:
-                            raise Unsupported("boolean-mask selection with a symbolic mask (data dependent shape)")
+                            t = I.ctx.branch(t)          # data-dependent shape: one path per mask pattern
                     if t:
                         keep.append(j)
                 return self.getitem(I, a, (keep,), node) if keep else NDArr.fresh(lambda i: 0, (0,), a.kind)
@@ -992,6 +992,11 @@ class Numpy:
             if isinstance(value, (int, float, SV)) or value is None:
                 a.write(lambda vidx: I.sym_bool(mask.get(*vidx)), lambda vidx: value)
                 return
+            if mask.ndim == 1:
+                # a[mask] = values: the k-th selected position receives values[k] (positions: concrete, entailed, or one path per pattern)
+                (pos,) = self.np_nonzero(I, [mask], {}, node)
+                _, lst = self.dense(I, pos, "mask positions")
+                return self.setitem(I, a, [int(z3.simplify(zint(v)).as_long()) if not isinstance(v, int) else v for v in lst], value, node)
             raise Unsupported("boolean-mask assignment of an array value")
         if isinstance(idx, LibObj) and idx.kind == "ix":
             raise Unsupported("assignment through np.ix_")
@@ -1932,6 +1937,34 @@ class Numpy:
             return [build(prefix + [i], d + 1) for i in range(shp[d])]
         return self.from_nested(I, build([], 0), arr.kind, shp)
 
+    def np_block(self, I, a, k, n):
+        """np.block([[A, B], [C, D]]) for matrices of concrete shape"""
+        rows = a[0]
+        if not isinstance(rows, (list, tuple)) or not rows or not all(isinstance(r, (list, tuple)) for r in rows):
+            raise Unsupported("np.block: only a list of lists of 2-D blocks is modelled")
+        out = []
+        width = None
+        for r in rows:
+            blocks = [self.dense(I, x, "np.block") for x in r]
+            if any(b.ndim != 2 for b, _ in blocks):
+                raise Unsupported("np.block of non-matrices")
+            h = {b.shape[0] for b, _ in blocks}
+            if len(h) != 1:
+                I.raise_exc(ValueError, "np.block: mismatched heights in a block row")
+            h = h.pop()
+            for i in range(h):
+                line = []
+                for b, l in blocks:
+                    line += list(l[i]) if b.shape[1] else []
+                out.append(line)
+            w = sum(b.shape[1] for b, _ in blocks)
+            if width is not None and w != width:
+                I.raise_exc(ValueError, "np.block: mismatched widths of block rows")
+            width = w
+        if not out or not width:
+            return NDArr.fresh(lambda r, c: 0, (len(out), width or 0), "float")
+        return self.from_nested(I, out, "float", (len(out), width))
+
     def sp_block_diag(self, I, a, k, n):
         mats = [self.dense(I, x, "block_diag") for x in a]
         if any(m.ndim != 2 for m, _ in mats):
@@ -1951,7 +1984,8 @@ class Numpy:
         return self.from_nested(I, out, "float", (R, C))
 
     def sp_solve_discrete_lyapunov(self, I, a, k, n):
-        """ASSUMED CONTRACT of scipy.linalg.solve_discrete_lyapunov(a, q): returns X with  X == a X a' + q  (reals)."""
+        """ASSUMED CONTRACT of scipy.linalg.solve_discrete_lyapunov(a, q): returns X with  X == a X a' + q  (reals); X is
+        symmetric when q is."""
         from .interp import num_pair
         I.ctx.note_assumption("scipy.linalg.solve_discrete_lyapunov(a, q): assumed contract - returns X with X == a @ X @ a.T + q (reals)")
         if k:
@@ -1975,6 +2009,10 @@ class Numpy:
                         acc = I.binop("+", acc, I.binop("*", I.binop("*", Al[i][p], X[p][q], n), Al[j][q], n), n)
                 ta, tb = num_pair(X[i][j], acc)
                 I.ctx.assume(ta == tb)
+        # the (unique) solution for a symmetric q is symmetric
+        sym_q = [num_pair(Ql[i][j], Ql[j][i]) for i in range(m) for j in range(i + 1, m)]
+        if sym_q:
+            I.ctx.assume(z3.Implies(z3.And(*[a == b for a, b in sym_q]), z3.And(*[X[i][j].t == X[j][i].t for i in range(m) for j in range(i + 1, m)])))
         reg = getattr(I.ctx, "lyaps", None)
         if reg is None:
             reg = I.ctx.lyaps = []
